@@ -78,7 +78,11 @@ func (h *hist) spec() (RM, keepRM, PM, keepPM map[string]bool) {
 // collector drops such an answer (even when young) and with it the only link to the artifact.
 func (h *hist) k6Vulnerable(mm *vh.Man) bool {
 	m := h.w.Repos["r"]
-	return mm.Subject != "" && !m.Tagged(mm.D) && (m.Adopted[mm.D] || h.unlisted[mm.D]) && m.Mans[mm.Subject] == nil
+	if mm.Subject == "" || m.Tagged(mm.D) {
+		return false
+	}
+	// either the answer was already seen to have dropped it, or it hangs on an answer whose subject is not present
+	return h.unlisted[mm.D] || (m.Adopted[mm.D] && m.Mans[mm.Subject] == nil)
 }
 
 // specX computes the sets with the manifests selected by exclude removed from the roots (used to recognise the
